@@ -69,7 +69,7 @@ package grpcmux
 //@   loop#1 invariant !held(m.acceptMutex)
 //@   after select#1 bind kid: Int := recv0
 //@   after select#1 bind ksel: Int := index
-//@   at call fmt.Errorf("received knock on ID %d that doesn't have a listener")#1 assert false   [C08.mux-s]
+//@   at call fmt.Errorf#2 assert false   [C08.mux-s]
 //@   at send#1 assert ksel == 0 && chan == m.acceptChannels[kid]   [C08.mux-s]
 
 //@ func (*grpcmux.GRPCServerMuxer).Close
